@@ -121,16 +121,16 @@ PROPS["C02"] = dict(
 PROPS["C03"] = dict(
     registered=True,
     level_text="Kernel-checked theorem C03_ingest_inv: every table produced by the sorter/inserter pipeline satisfies all clauses of the decidable invariant tableInv (row count, 255-row blocks, strictly ascending keys, block index = (H key, H row) per row and sorted by key hash, table index = first key per block). The same tableInv is evaluated by Lean on every real table dump (with hashes recomputed by the harness) together with doctor's self-diagnosis; offsets b*255+i address row i of block b (C03_offsets).",
-    level_note=LEVEL_NOTE + "Producers covered by theorems: ingest (commit; merge results and doctor re-ingest go through the same sorter/inserter); receipt over the wire (C03_receive_index_clauses: every table object the receiver's IndexTable model accepts satisfies all index clauses; C03_receive_inv: a table that met the invariant at the source meets it at the destination; the row order itself is the sender's, C03_receive_order_is_the_senders); doctor's diagnosis (C03_diagnose_complete: the model of diagnoseCommit reports nothing on a table that satisfies the invariant; the driver compares that model with doctor's output on every dump). The receiver theorem takes block contents as given (byte identity: C06/C07).",
+    level_note=LEVEL_NOTE + "Producers covered by theorems: ingest (commit; merge results and doctor re-ingest go through the same sorter/inserter); receipt over the wire (C03_receive_index_clauses: every table object the receiver's IndexTable model accepts satisfies all index clauses; C03_receive_inv: a table that met the invariant at the source meets it at the destination; the row order itself is the sender's, C03_receive_order_is_the_senders); doctor resolve over a whole history of issues with one sorter (C03_resolve_inv, C03_resolve_history_independent, C03_resolve_one_is_ingest over Model/Resolver.lean); doctor's diagnosis (C03_diagnose_complete: the model of diagnoseCommit reports nothing on a table that satisfies the invariant; the driver compares that model with doctor's output on every dump). The receiver theorem takes block contents as given (byte identity: C06/C07).",
     lean_modules=["WrglModel.Props.C03"],
     quick_n=240, thorough_n=3000, rule=_INGEST_RULE + "; producers: ingest, and (one case in four) receipt over the wire: the table is ingested in a source store, "
          "sent through the real ObjectSender/ObjectReceiver (1..2 transfers, packfile size limits, stray blocks or a block-sharing earlier table "
          "at the destination) and the DESTINATION's copy is examined, half of them with shuffled columns so that the key is not the leading "
-         "columns (merge results and doctor re-ingest are exercised by C05/C07 runs); in addition, at one index in eight each: "
+         "columns (merge results are exercised by C05/C07 runs); in addition, at one index in eight each: "
          "a table with one cell of 65535 / 65536 / 65537 bytes (in the key of the row that sorts last, elsewhere in that row, anywhere), and a "
          "table the destination holds (received or ingested there) examined AFTER a later receipt of a table sharing its blocks was refused "
          "(the packfile lacks a block the sender took for common; the later table names a block index sum that is not its block's)",
-    modelled="sorter block cutting and block keys, objects.IndexBlockFromBytes/IndexBlock (as the invariant they establish), doctor.diagnoseCommit (observed)",
+    modelled="sorter block cutting and block keys, objects.IndexBlockFromBytes/IndexBlock (as the invariant they establish), doctor.diagnoseCommit (observed), doctor resolver.reingest/ingestTable with slice.KeyIndices, Table.PrimaryKey and ensureColumnNamesAreNotEmpty (Model/Resolver.lean)",
     assumptions=["row and key hashes are recomputed by the harness with meow over the string-list encoding"],
 )
 
@@ -336,7 +336,12 @@ PROPS["C10"] = dict(
 # additions made while strengthening the generators against the seeded changes (DESIGN.md §0.6)
 _RULE_EXTRA = {
     "C01": "; 1 in 6 small tables go through the real command line instead (`wrgl commit` then `wrgl export` on a badger + SQLite repository; the exported CSV must hold the model's stored rows in order); plus one size-boundary table per run (1 044 481 rows = 4097 blocks, 8 workers), read back in aggregate",
-    "C03": "; plus the size-boundary table (4097 blocks)",
+    "C03": "; plus the size-boundary table (4097 blocks); on 2 case indices in 8 also a HISTORY repaired by the doctor (op resolve-inv): a chain of 1..4 commits on one branch, each holding a sound table, "
+           "a table that needs a re-ingest (a row stored twice in a row, a recorded row count that is off within the same number of blocks, the last block's index gone from the store or lacking a row) or a table "
+           "whose key must be dropped (a key position outside the columns, a key column without a name), written object by object as an older version left them (1..4 columns of any width per commit, key on "
+           "any columns / composite / none, rows in key order or not, equal keys, 1 row .. 3 blocks); every ordered triple of (sound, re-ingest, key reset) comes up over the indices; after Doctor.Diagnose + "
+           "ONE Doctor.Resolve over all the issues every table of the new history must satisfy tableInv and a clean self-diagnosis, and equal what the resolver model (Model/Resolver.lean: one sorter with "
+           "its Reset and its PK field over the whole history) writes",
     "C05": "; 1 in 4 keyed tuples with column-changing branches (add / remove / move columns per branch, shared new names), judged by column name; 1 in 4 with an all-empty key; 1 in 20 indices carry a second case, a history through the command line (`wrgl commit` / `branch create` / 3..4 `wrgl merge` steps with --ff / --no-ff / --ff-only / default: BRANCH behind, ahead of (by one or two commits), on the same commit as, or diverged from the commit merged in; a completed merge run again; merged again after one side moved on), the table of every branch read back after every merge and judged by the merge laws on a model of the commit graph; 1 in 10 indices carry the same tuple re-based on a header-only table (tag empty-base: no block, empty table index; every branch row is an addition); 1 in 10 (thorough 1 in 40) carry a case of what `wrgl merge` delivers (op merge-cli-deliver: the conflict keys and merged rows of the --no-gui CONFLICTS file, the --no-commit MERGE file, the merge commit; key in front, header-only / one-block / several-block base) on a healthy repository or with one block index / block / table index of the base or a branch deleted from the object store: whenever the command reports success the delivered rows and conflicts must be the three-way merge of the committed tables, a failure is accepted only when an object was taken away",
     "C06": "; block indices built by IndexBlock (0..5 or 255 rows, keyed or keyless): written, read, re-written, stored, fetched, compared with the Lean codec; table profiles of real ingests decoded and re-encoded; with each of them a generated profile VALUE (0..4 columns, every field present/absent/empty, any 64-bit float pattern, column names of 255..131072 bytes, top values up to 65535 bytes) written, read back, re-encoded, stored and fetched, its bytes compared with the writer of Model/Profile.lean, a text that does not fit 16 bits must be refused; 1 in 32 a history of 2..8 Save*/Delete* calls on one store that writes keys again (same content; other content under the same table sum for table index / profile), read back after every step and dumped at the end, against the finite map of Model/ObjStore.lean; the history runs on one of the four objects.Store implementations (the harness's map, objmock, objbadger.Store, and - half of the cases - the transaction store objbadger.Txn, whose Save*/Delete* calls are staged, read back through the transaction, and reach the database at partial commits placed inside the history and at the final Commit; model: TxnStore of Model/ObjStore.lean, the database is dumped from outside the transaction after every commit), and in 3 of 4 histories the caller serialises every object into ONE buffer, hands SaveBlock / SaveBlockIndex the compression buffer they gave back, and overwrites both as soon as each Save* has returned (tags store-*, caller-reuses-its-buffers, partial-commit); 1 in 64 a stored table whose index and profile keys hold another table's / an older profiler's / damaged / the same / no bytes, refreshed by IndexTable + ProfileTable and compared with the same refresh onto absent keys",
     "C07": "; 1 in 5 extra tables header-only; 1 scenario in 2 also holds 1..2 tables that are another table of the scenario committed again under another primary key that keeps the row order (first column + second column, or keyless): the very same blocks under different block indices, placed anywhere among the tables (tag same-blocks-under-another-primary-key); for every received table each block index it names must be held by the destination with the source's bytes, one per block; 1 table in 3 has a block (a middle one or the last) whose final row ends with an empty cell; commit times in 13 zones (whole-hour and fractional offsets on both sides of UTC); 1 case in 4 negotiated: histories of 2..8 commits with more merges, the destination asks for 1..2 commits it lacks and reports its tips (sometimes more, sometimes an unknown hash, in 1..2 rounds, depth 0..3, optionally acknowledging tables it has), the real ClosedSetsFinder picks the commit list, tables and commons that ObjectSender then sends; the transfer must succeed and leave every ancestor of the wants (tables within the depth) and nothing outside the wanted history; 1 case in 4 (and every other negotiated one): every packfile of the transfer is also delivered cut short to a copy of the destination as it was before that packfile (inside the file header, at every object boundary, at every byte of objects up to 256 bytes, at 16 bytes from either end plus 16 drawn in between of larger ones; at most about 400 cuts per case): a cut on an object boundary is accepted, any other is refused, and the copy holds exactly the complete objects before the cut, identical to the source's",
